@@ -1252,7 +1252,7 @@ static int parse_single_cert(psPool_t *pool, const unsigned char **pp,
     case OID_SHA1_ECDSA_SIG:
 #   endif
 #   ifndef ENABLE_SHA1_SIGNED_CERTS
-        if (cert->subject.commonNameLen == cert->issuer.commonNameLen &&
+        if (cert->subject.commonNameLen != cert->issuer.commonNameLen ||
                 Memcmp(cert->subject.commonName,
                         cert->issuer.commonName,
                         cert->subject.commonNameLen))
